@@ -252,8 +252,87 @@ def both_backends_key_lookup(ctx):
     return res
 
 
+def batch_duplicates_and_submission_paths(ctx):
+    """Bounded: same-key invocations must see each other whichever way they were submitted.  (a) A parallelized batch that repeats one call:
+    while any one of the duplicates is RUNNING, none of the others is authorised to start.  (b) One call submitted plainly and the same call
+    submitted through a batch, small and large key argument (inline / externalised), both orders."""
+    from pyvc.prop import BoundedResult
+    from pynenc.conf.config_task import ConcurrencyControlType as CC
+    from pynenc.invocation.status import InvocationStatus as S
+    from . import verif_tasks as vt
+    from .realapp import force_status, real_app
+    res = BoundedResult("batch_duplicates_and_submission_paths", "running_concurrency in {ARGUMENTS, KEYS} x {in-memory, SQLite}: a batch of three identical calls with each one "
+                        "in turn RUNNING; a plain call and a batched call with the same key (small / >= 1 kB argument, both orders): the start-time authorisation of the others is False")
+    n = 0
+    for backend in ("mem", "sqlite"):
+        for mode in (CC.ARGUMENTS, CC.KEYS):
+            for size in ("small", "large"):
+                key = "k" if size == "small" else "K" * 1500
+                with real_app(backend) as app:
+                    opts = dict(running_concurrency=mode)
+                    if mode == CC.KEYS:
+                        opts["key_arguments"] = ("key",)
+                    task = app.task(**opts)(vt.key_task)
+                    try:
+                        batch = list(task.parallelize([(key, "o"), (key, "o"), (key, "o"), ("other", "o")]).invocations)
+                        plain = task(key, "o")
+                        app.state_backend.wait_for_all_async_operations()
+                        # a runner works on the invocation as stored (the objects of the submitting process hold routing-only calls)
+                        batch = [app.state_backend.get_invocation(i.invocation_id) for i in batch]
+                        plain = app.state_backend.get_invocation(plain.invocation_id)
+                        same = batch[:3] + [plain]
+                        for running in range(len(same)):
+                            n += 1
+                            for inv in same:
+                                force_status(app, inv.invocation_id, S.PENDING, "r-" + inv.invocation_id[:4])
+                            force_status(app, same[running].invocation_id, S.RUNNING, "r-run")
+                            allowed = [j for j, inv in enumerate(same) if j != running and app.orchestrator.is_authorize_to_run_by_concurrency_control(inv)]
+                            if allowed:
+                                what = ["batch#0", "batch#1", "batch#2", "plain"]
+                                res.failures.append({"what": f"{backend} {mode.name} {size} key: {what[running]} is RUNNING, yet {[what[j] for j in allowed]} with the same key "
+                                                             "are authorised to start", "input": {"backend": backend, "mode": mode.name, "key": size, "running": what[running]},
+                                                     "finding_key": f"{backend}:same-key-not-seen"})
+                        other_ok = app.orchestrator.is_authorize_to_run_by_concurrency_control(batch[3])
+                        if not other_ok and mode != CC.TASK:
+                            res.failures.append({"what": f"{backend} {mode.name}: an invocation with another key is refused while only key {size} is RUNNING",
+                                                 "finding_key": f"{backend}:other-key-blocked"})
+                    except Exception as e:      # noqa: BLE001
+                        res.failures.append({"what": f"{backend} {mode.name} {size}: scenario could not run: {type(e).__name__}: {str(e)[:140]}", "finding_key": f"{backend}:scenario-error"})
+    # (c) the key is per task: within ONE poll a really blocked invocation of task A must not make an invocation of task B with equal
+    # arguments count as blocked
+    from .realapp import runner_ctx
+    for backend in ("mem", "sqlite"):
+        for mode in (CC.ARGUMENTS, CC.KEYS):
+            for reroute in (False, True):
+                n += 1
+                with real_app(backend) as app:
+                    try:
+                        opts = dict(running_concurrency=mode, reroute_on_concurrency_control=reroute)
+                        if mode == CC.KEYS:
+                            opts["key_arguments"] = ("key",)
+                        ta, tb = app.task(**opts)(vt.key_task), app.task(**opts)(vt.sp_h_key)
+                        a1 = ta("acc", "o")
+                        R = runner_ctx("poller")
+                        got = list(app.orchestrator.get_invocations_to_run(1, R))
+                        app.orchestrator.set_invocation_status(a1.invocation_id, S.RUNNING, R)
+                        a2, b1 = ta("acc", "o"), tb("acc", "o")
+                        handed = [i.invocation_id for i in app.orchestrator.get_invocations_to_run(2, runner_ctx("poller-2"))]
+                        st_b = app.orchestrator.get_invocation_status(b1.invocation_id).name
+                        if b1.invocation_id not in handed or a2.invocation_id in handed:
+                            res.failures.append({"what": f"{backend} {mode.name} reroute={reroute}: task A('acc') RUNNING, one poll for 2 slots finds A('acc') and B('acc') queued: handed out "
+                                                         f"{['A2' if i == a2.invocation_id else 'B1' for i in handed]}, B ends {st_b} (the key of B is B's own: nothing of B is PENDING or RUNNING)",
+                                                 "input": {"backend": backend, "mode": mode.name, "reroute": reroute}, "finding_key": f"{backend}:key-across-tasks"})
+                    except Exception as e:      # noqa: BLE001
+                        res.failures.append({"what": f"{backend} {mode.name}: cross-task scenario could not run: {type(e).__name__}: {str(e)[:140]}", "finding_key": f"{backend}:scenario-error"})
+    res.failures = res.failures[:8]
+    res.cases = n
+    res.distinct = n
+    res.samples = [{"mode": "ARGUMENTS", "running": "batch#1"}]
+    return res
+
+
 def bounded():
-    return [mem_index_small_scope, both_backends_key_lookup]
+    return [batch_duplicates_and_submission_paths, mem_index_small_scope, both_backends_key_lookup]
 
 
 def replay_poll_raises(ctx, ob):
